@@ -449,12 +449,22 @@ func runC03Case(c *fw.Ctx, id string, cs c03Case) {
 		allDone = waitAll(func(t *c03Tracked) bool { return !t.post }, 4*time.Second)
 		failed = rc.Dial(context.Background()) != nil
 	}
-	if !failed && cs.Server != "" && cs.BlockThen == "" && int(atomic.LoadInt32(&reqN)) >= cs.ServerAt {
+	// has the request the server misbehaves at arrived? Decided once, here: a
+	// request nobody waits for (a batch of cancelled calls) may still arrive
+	// while the rules below are evaluated, and then nothing has been waited for
+	reached := int(atomic.LoadInt32(&reqN)) >= cs.ServerAt
+	if !failed && cs.Server != "" && cs.BlockThen == "" && reached {
 		// the last call may be completed by the reader a moment before the
 		// failure handler runs (it is even slowed down in some schedules)
-		for i := 0; i < 200 && !failed; i++ {
+		// (how soon is C18's subject, not this property's: the bound is a generous
+		// watchdog, a failure noticed late is only counted)
+		t0 := time.Now()
+		for i := 0; i < 1000 && !failed; i++ {
 			time.Sleep(10 * time.Millisecond)
 			failed = rc.Dial(context.Background()) != nil
+		}
+		if failed && time.Since(t0) > 2*time.Second {
+			c.Count("connection_failures_noticed_after_more_than_2s", 1)
 		}
 	}
 	fired := fc != nil && fc.Fired()
@@ -466,7 +476,7 @@ func runC03Case(c *fw.Ctx, id string, cs c03Case) {
 	}
 	if failed {
 		c.Count("connections_failed", 1)
-	} else if cs.Server != "" && cs.BlockThen == "" && int(atomic.LoadInt32(&reqN)) >= cs.ServerAt && cs.Server != "unknown-call-id" &&
+	} else if cs.Server != "" && cs.BlockThen == "" && reached && cs.Server != "unknown-call-id" &&
 		(cs.Server != "fatal-action-exc" || atomic.LoadInt32(&fatalDone) == 1) {
 		// the server misbehaved at a request that did arrive: the connection must
 		// have been failed (and, below, refuse what is handed to it afterwards)
